@@ -208,6 +208,11 @@ class SimPopen(object):
                     delay += d[min(s.n_checks, len(d)) - 1]
                 else:
                     delay += pf.get("check_delay", 0.0)
+            if name == "get-value" and pf.get("value_delay"):
+                # a solver that is slow in producing (its first) values
+                if s.counts.get("get-value", 0) <= 1:
+                    delay += pf["value_delay"]
+                    self.world.fire("slow_value")
             if delay == float("inf"):
                 self.world.fire("stall")
                 continue     # never answers
